@@ -1,6 +1,8 @@
 package mkvslab
 
 import (
+	"context"
+	"errors"
 	"fmt"
 	"sync"
 	"sync/atomic"
@@ -54,6 +56,11 @@ type CountingDB struct {
 	Gets     atomic.Int64
 	Refetch  atomic.Int64
 	NotFound atomic.Int64
+	// Injected counts the GetNode calls that were failed on demand (see FailGetNode).
+	Injected atomic.Int64
+
+	// arm: -1 = disarmed; n >= 0: the (n+1)-th GetNode from now fails once with ErrInjected.
+	arm atomic.Int64
 
 	mu   sync.Mutex
 	seen map[hash.Hash]struct{}
@@ -61,8 +68,20 @@ type CountingDB struct {
 
 // NewCountingDB wraps ndb.
 func NewCountingDB(ndb dbApi.NodeDB) *CountingDB {
-	return &CountingDB{NodeDB: ndb, seen: map[hash.Hash]struct{}{}}
+	c := &CountingDB{NodeDB: ndb, seen: map[hash.Hash]struct{}{}}
+	c.arm.Store(-1)
+	return c
 }
+
+// ErrInjected is the transient error an armed CountingDB returns from GetNode once.
+var ErrInjected = errors.New("verif: injected transient node database read error")
+
+// FailGetNode arms the fault: the (after+1)-th GetNode call from now fails once with
+// ErrInjected (without reaching the wrapped database); all other calls are passed through.
+func (c *CountingDB) FailGetNode(after int) { c.arm.Store(int64(after)) }
+
+// Disarm removes a fault that has not fired; it reports whether one was still pending.
+func (c *CountingDB) Disarm() bool { return c.arm.Swap(-1) >= 0 }
 
 // ResetSeen forgets the fetched hashes (call when a new tree instance is created).
 func (c *CountingDB) ResetSeen() {
@@ -74,6 +93,14 @@ func (c *CountingDB) ResetSeen() {
 // GetNode implements NodeDB.
 func (c *CountingDB) GetNode(root node.Root, ptr *node.Pointer) (node.Node, error) {
 	c.Gets.Add(1)
+	if a := c.arm.Load(); a >= 0 {
+		if a == 0 {
+			c.arm.Store(-1)
+			c.Injected.Add(1)
+			return nil, ErrInjected
+		}
+		c.arm.Store(a - 1)
+	}
 	if ptr != nil {
 		c.mu.Lock()
 		if _, ok := c.seen[ptr.Hash]; ok {
@@ -93,4 +120,35 @@ func (c *CountingDB) GetNode(root node.Root, ptr *node.Pointer) (node.Node, erro
 // Root builds a state root.
 func Root(version uint64, h hash.Hash) node.Root {
 	return node.Root{Namespace: Namespace, Version: version, Type: node.RootTypeState, Hash: h}
+}
+
+// CountdownCtx is a context that reports cancellation after its Err method has been consulted
+// a given number of times, i.e. deterministically in the middle of an operation (the tree
+// consults ctx.Err() at every level while descending). Done is the parent's.
+type CountdownCtx struct {
+	context.Context
+	remaining int
+	// Fired is set once Err has returned context.Canceled.
+	Fired bool
+}
+
+// NewCountdownCtx returns a context whose Err returns nil `after` times and context.Canceled
+// from then on.
+func NewCountdownCtx(parent context.Context, after int) *CountdownCtx {
+	return &CountdownCtx{Context: parent, remaining: after}
+}
+
+// Err implements context.Context.
+func (c *CountdownCtx) Err() error {
+	if c.remaining > 0 {
+		c.remaining--
+		return nil
+	}
+	c.Fired = true
+	return context.Canceled
+}
+
+// IsInjected reports whether err is one of the injected faults.
+func IsInjected(err error) bool {
+	return errors.Is(err, ErrInjected) || errors.Is(err, context.Canceled)
 }
